@@ -192,9 +192,49 @@ func checkC16(c *an.Ctx) {
 		}
 	})
 	c.Check(!touched, "C16.1", an.Short(um)+":returns-decoded-map", um.Pos(), "the decoded map is returned as decoded", "unmarshalData edits the decoded map")
-	// readFile / readURL
-	rf := p.Func("internal/config", "Loader", "readFile")
-	ru := p.Func("internal/config", "Loader", "readURL")
+	// the functions that choose the extension: the callers of unmarshalData and the helpers only they use
+	deciders := map[*ssa.Function]bool{um: true}
+	for _, site := range p.CallSitesOf(um) {
+		deciders[site.Parent()] = true
+	}
+	for changed := true; changed; {
+		changed = false
+		for _, fn := range p.Funcs {
+			if deciders[fn] || !inPkgs("internal/config")(fn) {
+				continue
+			}
+			sites := p.CallSitesOf(fn)
+			if len(sites) == 0 {
+				continue
+			}
+			all := true
+			for _, st := range sites {
+				if !deciders[st.Parent()] || st.Parent() == p.Func("internal/config", "Loader", "load") && fn.Signature.Results().Len() != 1 {
+					all = false
+				}
+			}
+			// only value-returning helpers that feed the extension (string results)
+			if all && fn.Signature.Results().Len() == 1 {
+				if b, ok := fn.Signature.Results().At(0).Type().Underlying().(*types.Basic); ok && b.Kind() == types.String {
+					deciders[fn] = true
+					changed = true
+				}
+			}
+		}
+	}
+	var urlFn *ssa.Function
+	for f := range deciders {
+		if len(an.CallsIn(f, "net/http.Get")) > 0 {
+			urlFn = f
+		}
+	}
+	rf, ru := (*ssa.Function)(nil), urlFn
+	for _, site := range p.CallSitesOf(um) {
+		f := site.Parent()
+		if f != urlFn {
+			rf = f
+		}
+	}
 	for _, f := range []*ssa.Function{rf, ru} {
 		if f == nil {
 			continue
@@ -204,7 +244,7 @@ func checkC16(c *an.Ctx) {
 				continue
 			}
 			var exts []string
-			for _, src := range an.Sources(site.Common().Args[2]) {
+			for _, src := range p.DeepSources(site.Common().Args[2], 3, false) {
 				if s, ok := an.ConstString(src); ok {
 					exts = append(exts, fmt.Sprintf("%q", s))
 					continue
@@ -227,13 +267,15 @@ func checkC16(c *an.Ctx) {
 	if ru != nil {
 		// ".json" is chosen exactly for media type application/json
 		okMT := false
-		an.EachInstr(ru, func(in ssa.Instruction) {
-			if bo, ok := in.(*ssa.BinOp); ok && bo.Op == token.EQL {
-				if s, _ := an.ConstString(bo.Y); s == "application/json" {
-					okMT = true
+		for f := range deciders {
+			an.EachInstr(f, func(in ssa.Instruction) {
+				if bo, ok := in.(*ssa.BinOp); ok && bo.Op == token.EQL {
+					if s, _ := an.ConstString(bo.Y); s == "application/json" {
+						okMT = true
+					}
 				}
-			}
-		})
+			})
+		}
 		c.Check(okMT, "C16.1", an.Short(ru)+":content-type", ru.Pos(), "application/json selects the JSON decoder", "readURL does not map application/json to .json")
 	}
 
@@ -294,7 +336,7 @@ func checkC16(c *an.Ctx) {
 	}
 
 	// C16.3
-	allowed := map[*ssa.Function]bool{um: true, rf: true, ru: true}
+	allowed := deciders
 	clean := true
 	for _, fn := range p.Funcs {
 		if !inPkgs("internal/config")(fn) || allowed[fn] {
